@@ -176,7 +176,7 @@ var literalTexts = []string{
 	`"1e+30"^^type:float64`, `"ab"^^type:text`, `"abc"^^type:text`, `"ab c"^^type:text`, `"a"^^type:text`, `"b"^^type:text`, `"u"^^type:text`,
 	`""^^type:text`, `"true"^^type:bool`, `"false"^^type:bool`, `"[0 60]"^^type:blob`, `"x"^^type:int64`, `"zeta"^^type:text`, `"k1"^^type:text`,
 }
-var nodeTexts = []string{`/u<a>`, `/u<b>`, `/t<a>`, `/u<ab>`, `/t<x y>`}
+var nodeTexts = []string{`/u<a>`, `/u<b>`, `/t<a>`, `/u<ab>`, `/u/x<al>`, `/u<al>`, `/ux<a>`, `/t<x y>`}
 var timeTexts = []string{`2020-01-01T00:00:00Z`, `2020-01-01T00:00:01Z`, `2019-12-31T23:30:00Z`, `2020-01-01T01:00:00+01:00`, `2020-01-01T00:00:00.5Z`, `1999-12-31T23:59:59Z`}
 var predTexts = []string{`"p"@[]`, `"q"@[]`, `"knows"@[]`, `"p"@[2020-01-01T00:00:00Z]`}
 
